@@ -9,6 +9,9 @@
 //	   + the reference *decoder* run by the driver on the implementation's bytes recovers the fields
 //	B  io.DataOutputX.WriteHeader / WriteOneWayHeader around the payload = reference frame
 //	C  hash.Hash64Str(license)                     = reference hash64
+//	C2 license field of the frame (license.go): raw license texts (surrounding / only white space, line ends,
+//	   NUL, BOM, quotes, comment tail, case variants …) × routes (client option, exported field, per-send):
+//	   frame[10..18] = reference hash64 of exactly the license bytes in effect, frame = reference frame
 //	D  frames captured on a loopback socket from the public client API
 //	   (oneway.GetOneWayTcpClient + Send, per-send license and client license) = reference frame
 //	G  re-send after mutation (mutate.go, dump.go): one object sent repeatedly, mutated between sends through
@@ -375,6 +378,9 @@ func main() {
 			}
 		}
 	}
+
+	// ---- C2: the license field of the frame for license texts as they come out of files (license.go)
+	licensePhase(env, rep, vh.NewRng(env.Seed*0x3C6EF372+0x11CE))
 
 	// ---- A: payload bytes and reference decoder
 	res := evalCases(env, cases)
